@@ -327,6 +327,13 @@ func runC20(c *Ctx) {
 			if elems, isLit := sliceLitElems(r.Results[2]); isLit && len(elems) == 1 {
 				okDoc, _ = allOrigins(elems[0], oCallWhere(-1, "rt/middleware.WithSpecDocument", func(w *ssa.Call) bool {
 					okk, _ := allOrigins(w.Call.Args[0], oCall(1, "path.Split"))
+					if !okk {
+						// an exit taken only for a SpecURL that does not parse: the empty document name is what
+						// path.Split("") yields
+						if s, isC := constString(w.Call.Args[0]); isC && s == "" && guardedBy(r, pr, factNil(vIs(u), true)) {
+							okk = true
+						}
+					}
 					return okk
 				}))
 			}
